@@ -15,6 +15,12 @@ CHECKS = {
  'C11': ('bounded-exhaustive enumeration plus property-based random cases against the RFC slice pseudo-code in 128-bit arithmetic',
          'Every slice (start,end in absent/-10..10, step in absent/-4..4) and index on arrays of length 0..8 is enumerated completely, boundary values (+-(2^53-1), +-2^31, +-len+-1 ...) are placed in every position, non-array targets are swept, and random nested / large (<= 300) arrays are sampled; the ordered index sequence and the reported paths must equal the RFC pseudo-code. Exhaustive inside the stated boxes, exploration outside.',
          'Trusted: slice_indices() (transcription of RFC 9535 2.3.4.2.2, self-tested on the RFC examples); termination judged by a 20 s watchdog around each library call.', 'DESIGN.md section 4 C11'),
+ 'C03': ('property-based testing with an independent location oracle (pointer identity) and RFC 2.7 path normaliser; round-trip (re-query of every reported path) and injectivity checks; known findings K2/K3 attributed by quirk model',
+         'Random documents with hostile member names and queries over every route; each reported (node, path) pair is compared with the normalized path of the location found by address, equal paths must mean equal nodes, and every reported path is run as a query and must return exactly that node with that path. Also `$..*` over every generated document. Exploration only.',
+         'Trusted: normalized_path() (self-tested on the RFC examples), the recogniser used to read reported paths back into the oracle, size bounds as for C01.', 'DESIGN.md section 4 C03'),
+ 'C04': ('bounded-exhaustive comparison table against a direct transcription of the RFC rules, algebraic laws asserted on the library\'s own answers, plus property-based metamorphic equal/unequal copies and adjacent doubles',
+         'All ordered pairs of a 44-value universe (every JSON kind, colliding values, Nothing) x 6 operators x operand forms are evaluated through the public API and compared with the RFC 9535 2.3.5.2.2 rules; != / <= / >= / trichotomy laws are asserted on the library\'s answers independently of the oracle; random deep values are compared with respelled/reordered (equal) and minimally changed (unequal) copies; random numeric neighbours. Exhaustive inside the table, exploration outside.',
+         'Trusted: compare()/eq_json() of the harness (self-tested on the 28-row RFC table); numbers restricted to finite doubles and I-JSON integers.', 'DESIGN.md section 4 C04'),
 }
 NOT_YET = 'check under construction in this session (designed in DESIGN.md section 4); not yet registered'
 
